@@ -209,4 +209,17 @@ PROPS = {
             "macro results are not passed as macro arguments; included files define no macros",
         ],
     },
+    "C09": {
+        "quick": [
+            {"test": "TestC09Flow", "checks": 60000, "shards": 4},
+        ],
+        "thorough": [
+            {"test": "TestC09Flow", "checks": 2400000, "shards": 16},
+        ],
+        "assumptions": [
+            "maps are iterated only with 'sorted' (unsorted order is Go's)",
+            "ifchanged is generated only directly inside a loop that runs once per render: in nested loops 'the previous iteration' is read differently by Django (state per inner loop run) and pongo2 (state per render), and the property does not choose",
+            "{% cycle name %} re-emission is not generated",
+        ],
+    },
 }
